@@ -26,6 +26,8 @@ def main():
     ap.add_argument("--demo")
     ap.add_argument("--tier", default="quick")
     ap.add_argument("--skip-suite", action="store_true")
+    ap.add_argument("--bundled", action="store_true", help="suite and demonstration use the -Dwith-openssl=disabled configuration "
+                    "(the clean reference is then a scratch bundled build of /repo, removed afterwards)")
     a = ap.parse_args()
     res = {"patch": a.patch, "checks": {}}
     wt = tempfile.mkdtemp(prefix="zckv_seed_")
@@ -43,7 +45,8 @@ def main():
             res["error"] = "apply: " + out[-500:]
             return res
         if not a.skip_suite:
-            rc, out = sh(["meson", "setup", "_b", "--wrap-mode=nodownload"], cwd=wt)
+            opts = ["-Dwith-openssl=disabled"] if a.bundled else []
+            rc, out = sh(["meson", "setup", "_b", "--wrap-mode=nodownload"] + opts, cwd=wt)
             rc2, out2 = sh(["ninja", "-C", "_b"], cwd=wt)
             res["compiles"] = rc == 0 and rc2 == 0
             if not res["compiles"]:
@@ -58,8 +61,15 @@ def main():
                 rc, out = sh(["bash", os.path.abspath(a.demo), os.path.join(wt, "_b"), wt], cwd=os.path.dirname(os.path.abspath(a.demo)))
                 res["demo_on_mutant_rc"] = rc
                 res["demo_on_mutant_tail"] = out[-300:]
-                rc, out = sh(["bash", os.path.abspath(a.demo), "/repo/_build", "/repo"], cwd=os.path.dirname(os.path.abspath(a.demo)))
+                clean = "/repo/_build"
+                if a.bundled:
+                    clean = tempfile.mkdtemp(prefix="zckv_cleanb_")
+                    sh(["meson", "setup", clean, "/repo", "--wrap-mode=nodownload"] + opts)
+                    sh(["ninja", "-C", clean])
+                rc, out = sh(["bash", os.path.abspath(a.demo), clean, "/repo"], cwd=os.path.dirname(os.path.abspath(a.demo)))
                 res["demo_on_clean_rc"] = rc
+                if a.bundled:
+                    shutil.rmtree(clean, ignore_errors=True)
             shutil.rmtree(os.path.join(wt, "_b"), ignore_errors=True)
         env = dict(os.environ)
         env["ZCK_REPO"] = wt
